@@ -17,7 +17,10 @@ import (
 	"github.com/transparency-dev/witness/internal/client"
 	"github.com/transparency-dev/witness/internal/config"
 	"github.com/transparency-dev/witness/internal/feeder"
+	"github.com/transparency-dev/witness/internal/feeder/pixelbt"
+	"github.com/transparency-dev/witness/internal/feeder/rekor"
 	"github.com/transparency-dev/witness/internal/feeder/sumdb"
+	"github.com/transparency-dev/witness/internal/feeder/tiles"
 	"github.com/transparency-dev/witness/omniwitness"
 	"github.com/transparency-dev/witness/verifharness/internal/ref"
 	"github.com/transparency-dev/witness/verifharness/internal/stublog"
@@ -89,6 +92,7 @@ func tileMain(args []string) error {
 	samples := fs.Int("samples", 200, "sampled pairs up to 2^20")
 	seed := fs.Int64("seed", 1, "seed")
 	workers := fs.Int("workers", 8, "workers")
+	kind := fs.String("feeder", "sumdb", "which feeder builds the proofs: sumdb | tiles | pixel | rekor")
 	_ = fs.Parse(args)
 	tw, err := newTraceWriter(*out)
 	if err != nil {
@@ -168,13 +172,29 @@ func tileMain(args []string) error {
 		go func(wk int) {
 			defer wg.Done()
 			tag := fmt.Sprintf("tile-%d", wk)
-			base := world.New(world.Params{Logs: []string{"l1"}, MaxSize: 1, NBranch: 1, MaxLines: 6, NWitKeys: 2, Seed: *seed, RunTag: tag,
-				Origins: map[string]string{"l1": "go.sum database tree"}})
+			origins := map[string]string{}
+			if *kind == "sumdb" {
+				origins["l1"] = "go.sum database tree"
+			}
+			base := world.New(world.Params{Logs: []string{"l1"}, MaxSize: 1, NBranch: 1, MaxLines: 6, NWitKeys: 2, Seed: *seed, RunTag: tag, Origins: origins})
 			l := base.Logs["l1"]
 			sl := stublog.New(l.Origin, l.Key, l.Trees)
-			ts := httptest.NewServer(sl.SumDBHandler())
+			var h http.Handler
+			suffix := "/"
+			feed := sumdb.FeedLog
+			switch *kind {
+			case "sumdb":
+				h, suffix = sl.SumDBHandler(), ""
+			case "tiles":
+				h, feed = sl.TilesHandler(), tiles.FeedLog
+			case "pixel":
+				h, feed = sl.PixelHandler(), pixelbt.FeedLog
+			case "rekor":
+				h, feed, suffix = sl.RekorHandler("1234"), rekor.FeedLog, "/?treeID=1234"
+			}
+			ts := httptest.NewServer(h)
 			defer ts.Close()
-			lc, err := config.NewLog(l.Origin, l.Key.VKey(), ts.URL)
+			lc, err := config.NewLog(l.Origin, l.Key.VKey(), ts.URL+suffix)
 			if err != nil {
 				firstErr = err
 				return
@@ -199,10 +219,10 @@ func tileMain(args []string) error {
 				}
 				sl.Publish(0, p.to)
 				rw := &recWitness{inner: omniwitness.VerifWitnessAdapter(wit)}
-				ferr := sumdb.FeedLog(ctx, lc, rw, ts.Client(), 0)
+				ferr := feed(ctx, lc, rw, ts.Client(), 0)
 				cancel()
 				r2 := l.Trees[0].Root(p.to)
-				ev := tileEvent{E: "tile.proof", Run: tag, From: p.from, To: p.to}
+				ev := tileEvent{E: "tile.proof", Run: *kind + "/" + tag, From: p.from, To: p.to}
 				rw.mu.Lock()
 				if ferr == nil && rw.n == 1 {
 					ev.PfLen = len(rw.proof)
